@@ -84,7 +84,7 @@ def looping_cubic(rng, scale=300.0):
     return c
 
 
-PAIR_FAMILIES = ['symmetric', 'random', 'random-int', 'through', 'through', 'tiny', 'small', 'thin-axis', 'thin-near-axis', 'straight', 'loop', 'overlap-no-cross', 'split-piece']
+PAIR_FAMILIES = ['symmetric', 'random', 'random-int', 'through', 'through', 'tiny', 'small', 'thin-axis', 'thin-near-axis', 'straight', 'loop', 'overlap-no-cross', 'split-piece', 'arch']
 
 
 def piece_of(parent_json, t, k):
@@ -115,6 +115,19 @@ def gen_pair(rng, fam=None):
         parent = rcurve(rng); t = rng.choice([0.4, 0.5, 0.25, rng.uniform(0.1, 0.9)]); k = rng.randrange(2)
         a = piece_of(gen.seg_json(parent), t, k)
         return fam, a, through(rng, a)
+    if fam == 'arch':
+        # a symmetric arch (one coordinate exactly linear in t) crossed in the part that sticks out of the box of its end points
+        x0, x1 = sorted([float(rng.randint(-300, 300)), float(rng.randint(-300, 300))])
+        if x1 - x0 < 40: x1 = x0 + 100.0
+        y0 = float(rng.randint(-200, 200)); hgt = float(rng.randint(40, 300)) * rng.choice([1, -1])
+        a = QuadraticBezier(P(x0, y0), P((x0 + x1) / 2, y0 + hgt), P(x1, y0 + rng.choice([0.0, 0.0, float(rng.randint(-20, 20))])))
+        if rng.random() < 0.3: a = QuadraticBezier(*[P(q.y, q.x) for q in a.points])          # linear in y instead
+        # the partner stays on the apex side of the chord: it crosses the arch between 15% and 85% of the apex height
+        t1, t2 = rng.uniform(0.15, 0.45), rng.uniform(0.55, 0.85)
+        p1, p2 = a.pointAtTime(t1), a.pointAtTime(t2)
+        apex = a.pointAtTime(0.5); base = a[0].lerp(a[2], 0.5); out = (apex - base)
+        b = QuadraticBezier(p1 + (p1 - p2) * 0.5 + out * rng.uniform(0.0, 0.3), p1.lerp(p2, 0.5) + out * rng.uniform(-0.25, -0.05), p2 + (p2 - p1) * 0.5 + out * rng.uniform(0.0, 0.3))
+        return fam, a, b
     if fam == 'random': return fam, rcurve(rng), rcurve(rng)
     if fam == 'random-int': return fam, rcurve(rng, integer=True), rcurve(rng, integer=True)
     if fam == 'through':
